@@ -1,5 +1,6 @@
 import McpModel.TypedTool.Lemmas
 import McpModel.TypedTool.GoTy
+import McpModel.TypedTool.RegistryLemmas
 /-!
 E12 TypedTool — PROPERTY THEOREMS for C16 (DESIGN.md §5).
 
@@ -393,6 +394,73 @@ end
 
 /-! ## witnesses (non-vacuity) and the F9 counter-examples -/
 
+/-! ## registration: the schemas a tool enforces are its own, whatever was registered before
+
+`World.run R {} ops` is ANY program of `NewServer(&ServerOptions{SchemaCache: …})` / `AddTool` steps over
+any number of shared caches (any length, any interleaving, any Go types, tools replaced by name,
+registrations that fail half-way). `RegOp.Ok heap` is the SDK's documented condition of use of a
+`SchemaCache`: the content behind a `*jsonschema.Schema` that was handed to `AddTool` is not changed
+afterwards (`heap` gives the content of each pointer). -/
+
+/-- **a registered tool enforces (and publishes) its own schemas.** After any history of registrations
+through shared caches, for every tool on the current server the resolved schemas used by the wrapper
+for defaults and validation, and the schemas shown by tools/list, are the tool's own: the schema it
+declared, else the one inferred from its Go type — never one cached for another tool. -/
+theorem registered_tool_enforces_own_schemas {K : Type} [DecidableEq K] (R : RegEnv K S) (heap : Nat → S)
+    (ops : List (RegOp K S)) (hops : ∀ op ∈ ops, RegOp.Ok heap op)
+    (name : String) (d : Decl K S) (e : Entry S)
+    (hmem : (name, d, e) ∈ (World.run R ({} : World K S) ops).tools) :
+    e.enfIn = d.ownIn R ∧ e.enfOut = d.ownOut R ∧ e.pubIn = d.ownIn R ∧ e.pubOut = d.ownOut R := by
+  have hw := World.run_ok R heap ops {} (World.ok_init R heap) hops
+  obtain ⟨h1, h2, h3, h4⟩ := hw.2 (name, d, e) hmem
+  exact ⟨h2, h4, h1, h3⟩
+
+/-- … hence a call of a registered tool is a call of the wrapper over the tool's own schemas: every
+theorem above about `call E t h a` holds for registered tools with `t.inSchema`/`t.outSchema` read as
+the DECLARED schemas. -/
+theorem registered_call_eq_declared {K : Type} [DecidableEq K] (R : RegEnv K S) (heap : Nat → S)
+    (ops : List (RegOp K S)) (hops : ∀ op ∈ ops, RegOp.Ok heap op)
+    (name : String) (d : Decl K S) (e : Entry S)
+    (hmem : (name, d, e) ∈ (World.run R ({} : World K S) ops).tools)
+    (E : Env S) (oro : S → Bool) (ez : Option JVal) (dec : JVal → Option JVal) (h : JVal → HRet) (a : Args) :
+    call E (e.tool oro ez dec) h a = call E (d.tool R oro ez dec) h a := by
+  obtain ⟨h1, h2, _, _⟩ := registered_tool_enforces_own_schemas R heap ops hops name d e hmem
+  unfold Entry.tool Decl.tool
+  rw [h1, h2]
+
+/-- **invoked ⇔ valid after defaults under the tool's OWN input schema**, after any history. -/
+theorem registered_invoked_iff_valid_under_own_schema {K : Type} [DecidableEq K] (R : RegEnv K S) (heap : Nat → S)
+    (ops : List (RegOp K S)) (hops : ∀ op ∈ ops, RegOp.Ok heap op)
+    (name : String) (d : Decl K S) (e : Entry S)
+    (hmem : (name, d, e) ∈ (World.run R ({} : World K S) ops).tools)
+    (E : Env S) (oro : S → Bool) (ez : Option JVal) (dec : JVal → Option JVal) (h : JVal → HRet) (a : Args) :
+    (call E (e.tool oro ez dec) h a).seen.isSome = true ↔
+      ∃ x, defaulted E (d.ownIn R) a = some x ∧ E.valid (d.ownIn R) x = true ∧ (dec x).isSome = true := by
+  rw [registered_call_eq_declared R heap ops hops name d e hmem]
+  exact invoked_iff_valid_after_defaults E (d.tool R oro ez dec) h a
+
+/-- **output violating the tool's OWN output schema is an error, not a result**, after any history. -/
+theorem registered_invalid_output_is_error {K : Type} [DecidableEq K] (R : RegEnv K S) (heap : Nat → S)
+    (ops : List (RegOp K S)) (hops : ∀ op ∈ ops, RegOp.Ok heap op)
+    (name : String) (d : Decl K S) (e : Entry S)
+    (hmem : (name, d, e) ∈ (World.run R ({} : World K S) ops).tools)
+    (E : Env S) (oro : S → Bool) (ez : Option JVal) (dec : JVal → Option JVal) (h : JVal → HRet) (a : Args)
+    (x j : JVal) (s : S)
+    (hs : (call E (e.tool oro ez dec) h a).seen = some x) (he : (h x).err = none)
+    (hout : outJson (d.tool R oro ez dec) (h x).out = some j) (hsch : d.ownOut R = some s)
+    (hbad : E.valid s (outForm E (d.tool R oro ez dec) s j).1 = false) :
+    (call E (e.tool oro ez dec) h a).kind = .rpcError ∧ (call E (e.tool oro ez dec) h a).structured = none := by
+  rw [registered_call_eq_declared R heap ops hops name d e hmem] at hs ⊢
+  have := invalid_output_is_error_not_result E (d.tool R oro ez dec) h a x j s hs he hout hsch hbad
+  exact ⟨this.1, this.2.1⟩
+
+/-- **a failed registration stores nothing wrong**: whatever `AddTool` calls succeeded or panicked, every
+cache stays coherent (a type maps to the schema inferred from it, a pointer to its own content). -/
+theorem caches_stay_coherent {K : Type} [DecidableEq K] (R : RegEnv K S) (heap : Nat → S)
+    (ops : List (RegOp K S)) (hops : ∀ op ∈ ops, RegOp.Ok heap op) (i : Nat) (c : Cache K S)
+    (hc : assoc i (World.run R ({} : World K S) ops).caches = some c) : Coherent R heap c :=
+  (World.run_ok R heap ops {} (World.ok_init R heap) hops).1 i c hc
+
 section Witness
 
 /-- `{"type":"object","properties":{"n":{"type":"integer"},"c":{"type":"string","default":"x"}},"required":["n"]}` -/
@@ -450,6 +518,65 @@ theorem f9_counterexample_unrepaired :
 theorem f9_repaired_exact :
     seenEqv (call (refEnv lossy64) wTool wEcho (wArgs 9007199254740993))
       (fill wSchema (.obj [("n", .num (.ofInt 9007199254740993))])) = true := by decide
+
+/-! ### registration witnesses -/
+
+/-- inference gives every type the schema `{"type":"object"}`; everything resolves -/
+def wReg : RegEnv String Schema :=
+  { derive := fun _ => .mk { ty := [.object] } [] none none, resolves := fun _ => true,
+    objectSchema := .mk { ty := [.object] } [] none none }
+
+def wPlain : Decl String Schema :=
+  { inKey := "args", inAny := false, inGiven := none, outKey := "result", outAny := false, outGiven := none }
+/-- same Go types, its own stricter input schema, handed in as pointer 7 -/
+def wStrict : Decl String Schema := { wPlain with inGiven := some ⟨some 7, wSchema⟩ }
+
+/-- one cache shared by two servers: the inferred schemas enter the cache, then the strict tool -/
+def wHistory : List (RegOp String Schema) :=
+  [.server (some 1), .add "plain" wPlain, .server (some 1), .add "strict" wStrict, .add "strict2" wStrict]
+
+/-- non-vacuity of `registered_tool_enforces_own_schemas`: the history is admissible, populates the
+cache (both types, the pointer) and leaves two tools on the second server -/
+example : (∀ op ∈ wHistory, RegOp.Ok (fun _ => wSchema) op) ∧
+    (World.run wReg {} wHistory).tools.length = 2 ∧
+    ((World.run wReg {} wHistory).cacheOf.byType.map (·.1)) = ["result", "args"] ∧
+    ((World.run wReg {} wHistory).cacheOf.bySchema.map (·.1)) = [7] := by
+  refine ⟨?_, by decide, by decide, by decide⟩
+  intro op hop
+  simp only [wHistory, List.mem_cons, List.not_mem_nil, or_false] at hop
+  rcases hop with h | h | h | h | h <;> subst h <;>
+    simp [RegOp.Ok, Decl.Ok, GivenOk, wStrict, wPlain]
+
+/-- … and the strict tool refuses `{}` (its own schema requires `n`) although the cached schema of its
+Go type accepts it -/
+example : ((World.run wReg {} wHistory).tools.map fun x =>
+      (call (refEnv lossy64) (x.2.2.tool (fun _ => true) none (project wTy)) wEcho (.val (.obj []))).seen.isSome) = [false, false] ∧
+    valid (wReg.derive "args") (.obj []) = true := by decide
+
+/-- the cache after a server registered the plain tool -/
+def wCacheAfterPlain : Cache String Schema :=
+  (World.run wReg {} [.server (some 1), .add "plain" wPlain]).cacheOf
+
+/-- **why the order of the lookups in `setSchema` matters.** With the `byType` lookup hoisted above the
+test for a declared schema (`setSchemaHoisted`), after the same first registration the strict tool
+still publishes its own schema but enforces the cached one: the handler runs on `{}`, which is invalid
+under the declared schema. So `registered_tool_enforces_own_schemas` is a property of the lookup order
+the code has, not of caching as such. -/
+theorem hoisted_type_lookup_counterexample :
+    Coherent wReg (fun _ => wSchema) wCacheAfterPlain ∧
+    ∃ r, (setSchemaHoisted wReg wCacheAfterPlain "args" wStrict.inGiven).1 = some r ∧
+      valid r.published (.obj []) = false ∧ valid r.enforced (.obj []) = true ∧
+      (call (refEnv lossy64) { wTool with inSchema := r.enforced } wEcho (.val (.obj []))).seen.isSome = true := by
+  refine ⟨?_, ?_⟩
+  · have hops : ∀ op ∈ [RegOp.server (some 1), RegOp.add "plain" wPlain], RegOp.Ok (fun _ => wSchema) op := by
+      intro op hop
+      rcases List.mem_cons.mp hop with h | hop
+      · subst h; simp [RegOp.Ok]
+      · rcases List.mem_cons.mp hop with h | hop
+        · subst h; simp [RegOp.Ok, Decl.Ok, GivenOk, wPlain]
+        · simp at hop
+    exact World.cacheOf_coherent wReg _ _ (World.run_ok wReg (fun _ => wSchema) _ {} (World.ok_init _ _) hops)
+  · exact ⟨⟨wSchema, wReg.derive "args"⟩, rfl, by decide, by decide, by decide⟩
 
 end Witness
 
